@@ -67,8 +67,21 @@ def check(ctx):
     ok = bool(find("key = f'getattr-{tokenize(obj, attr, pure=True)}'", di)) and bool(find("self._obj = obj", di)) and bool(find("self._attr = attr", di))
     ctx.ob("DELEG.attr-name", di, "DelayedAttr key = getattr-<tokenize(obj, attr, pure=True)>", ok)
     dd = mod.func("DelayedAttr.dask")
-    ok = bool(find("layer = {self._key: (getattr, self._obj._key, self._attr)}", dd))
-    ctx.ob("DELEG.attr-task", dd, "DelayedAttr task = (getattr, obj key, attr)", ok)
+    # TYPED-STORE: the attribute name is a literal.  In a legacy tuple task every string argument that
+    # equals a key of the graph is taken for a reference to it, so the node must be a Task whose only
+    # reference is an explicit TaskRef to the object.
+    lay = find("layer = {self._key: M_v}", dd)
+    ok = len(lay) == 1
+    detail = ""
+    if ok:
+        v = lay[0][1]["M_v"]
+        if isinstance(v, ast.Tuple):
+            ok = False
+            detail = f"legacy tuple task {unparse(v)}: the attribute name is re-interpreted as a key when a key of that name is in the graph (delayed(3+4j, name='real').real raises; a.shape picks up a key named 'shape')"
+        else:
+            ok = Pat("Task(self._key, getattr, TaskRef(self._obj._key), self._attr)").match(v) is not None
+            detail = "" if ok else f"node is {unparse(v)}"
+    ctx.ob("TYPED-STORE.attr-task", dd, "DelayedAttr node = Task(key, getattr, TaskRef(obj key), <literal attr>)", ok, detail)
     # delayed(): leaf and container naming
     df = mod.func("delayed")
     t1 = find("token = tokenize(obj, nout, pure=pure)", df, nested=False)
@@ -131,12 +144,19 @@ def check(ctx):
     ctx.ob("CNT.iter", it, "for i in range(self._length): yield self[i]", ok)
     ok = any(isinstance(n, ast.Raise) and has_fact(inline_facts(it, n), "self._length is None", True) is not None for n in ast.walk(it))
     ctx.ob("CNT.iter.unknown-length", it, "unspecified length is not iterable", ok)
+    # containers passed to delayed functions keep their type at every nesting level
+    du = mod.func("unpack_collections")
+    wraps = find("args = Task(None, typ, args)", du)
+    ok = bool(wraps) and all(has_fact(inline_facts(du, n), "typ is list", False) is not None and not any("_return_collections" in unparse(e) for e, _ in cfg_of(du).facts(n)) for n, _ in wraps)
+    ctx.ob("TAB.containers.type-nested", du, "unpack_collections rebuilds tuples/sets with their own type at every nesting level (not only at the top, where _return_collections is true)", ok, "" if ok else "tuples/sets nested inside other containers or keyword arguments come back as lists")
     dc = mod.func("Delayed.__call__")
     ok = bool(find("func = delayed(apply, pure=pure)", dc)) and all(unparse(r.value).startswith("func(self, args, kwargs") for r in returns(dc))
     ctx.ob("DELEG.delayed-call", dc, "calling a Delayed = delayed(apply)(self, args, kwargs)", ok)
 
 
 VARIANTS = [
+    (DEL, "        # Ensure output type matches input type\n        if typ is not list:\n            args = Task(None, typ, args)\n", "            # Ensure output type matches input type\n            if typ is not list:\n                args = Task(None, typ, args)\n", "TAB.containers.type-nested"),
+    (DEL, "            self._key: Task(\n                self._key, getattr, TaskRef(self._obj._key), self._attr\n            )", "            self._key: (getattr, self._obj._key, self._attr)", "TYPED-STORE.attr-task"),
     (DEL, "tokenize(func_token, *args, pure=pure, **kwargs)", "tokenize(func_token, *args, pure=pure)", "TOKFLOW.call.token"),
     (DEL, "    task = Task(name, func, *args2, **dask_kwargs)", "    task = Task(name, func, *args2)", "TOKFLOW.call.task"),
     (DEL, "    if pure:\n        return _tokenize(*args, **kwargs)\n    else:\n        return str(uuid.uuid4())", "    if pure:\n        return _tokenize(*args)\n    else:\n        return str(uuid.uuid4())", "EFFECT.pure.deterministic"),
